@@ -12,6 +12,13 @@ class Shadow:
         self.tag = 0
         self.setup_done = role == 'client'
         self.chan_complete_sids = set()
+        self.big = False        # the endpoint fragments: some payloads handed to it span several fragments
+
+    def data(self, rng, n):
+        """payload tags for a local send: occasionally larger than one fragment when the endpoint fragments"""
+        if self.big and rng.random() < 0.35:
+            return self.fresh(rng.choice([70, 150]))
+        return self.fresh(n)
 
     def fresh(self, n=1):
         out = []
@@ -118,11 +125,11 @@ def choose_one(rng, H, sh, profile):
     w = opts.append
     hostile = profile == 'hostile'
     # ---- local API -------------------------------------------------------------------------
-    w((3, lambda: {'op': 'RR', 'data': sh.fresh(rng.choice([0, 1, 2]))}))
-    w((1, lambda: {'op': 'FNF', 'data': sh.fresh(1)}))
+    w((3, lambda: {'op': 'RR', 'data': sh.data(rng, rng.choice([0, 1, 2]))}))
+    w((1, lambda: {'op': 'FNF', 'data': sh.data(rng, 1)}))
     w((1, lambda: {'op': 'MP', 'data': sh.fresh(1)}))
-    w((3, lambda: {'op': 'RS', 'data': sh.fresh(rng.choice([0, 1])), 'n': rng.choice([1, 1, 2, 3, 2 ** 31 - 1] + ([0] if rng.random() < 0.1 else [])), 'sub': rng.random() < 0.85}))
-    w((3, lambda: {'op': 'RC', 'data': sh.fresh(1), 'n': rng.choice([1, 2, 3, 2 ** 31 - 1]), 'pub': rng.random() < 0.7, 'sub': rng.random() < 0.85}))
+    w((3, lambda: {'op': 'RS', 'data': sh.data(rng, rng.choice([0, 1])), 'n': rng.choice([1, 1, 2, 3, 2 ** 31 - 1] + ([0] if rng.random() < 0.1 else [])), 'sub': rng.random() < 0.85}))
+    w((3, lambda: {'op': 'RC', 'data': sh.data(rng, 1), 'n': rng.choice([1, 2, 3, 2 ** 31 - 1]), 'pub': rng.random() < 0.7, 'sub': rng.random() < 0.85}))
     for oid, i in sh.info.items():
         k = i['kind']
         if k in ('stReq', 'chReq'):
@@ -141,11 +148,11 @@ def choose_one(rng, H, sh, profile):
             w((2 if not i['peer_term'] and not i['we_cancel'] else 0.3, lambda oid=oid: {'op': 'FCN', 'oid': oid}))
         # application producing
         if k in ('stResp', 'chResp', 'chReq') and i['has_pub'] and i['subscribed'] and (not i['pub_term'] or hostile) and not (i['peer_cancel'] and not hostile):
-            w((4, lambda oid=oid: {'op': 'PN', 'oid': oid, 'data': sh.fresh(rng.choice([0, 1, 1, 2])), 'complete': rng.random() < 0.2}))
+            w((4, lambda oid=oid: {'op': 'PN', 'oid': oid, 'data': sh.data(rng, rng.choice([0, 1, 1, 2])), 'complete': rng.random() < 0.2}))
             w((1, lambda oid=oid: {'op': 'PC', 'oid': oid}))
             w((0.7, lambda oid=oid: {'op': 'PE', 'oid': oid}))
         if k == 'rrResp' and (not i['fut_done'] or hostile):
-            w((4, lambda oid=oid: {'op': 'HR', 'oid': oid, 'data': sh.fresh(rng.choice([0, 1, 2]))}))
+            w((4, lambda oid=oid: {'op': 'HR', 'oid': oid, 'data': sh.data(rng, rng.choice([0, 1, 2]))}))
             w((1, lambda oid=oid: {'op': 'HF', 'oid': oid}))
     # ---- peer ------------------------------------------------------------------------------
     if not H.closed_seen:
